@@ -346,12 +346,23 @@ func NewResponse(req *http.Request, status int, header http.Header, body *Script
 	}
 	resp.Status = strings.TrimSpace(itoa(status) + " " + http.StatusText(status))
 	if trailer != nil {
-		// net/http announces trailer keys up front with nil values and fills
-		// them in when the body hits EOF.
+		// Two models of how net/http publishes trailers, chosen by a property of
+		// the case itself (so that a replay sees the same one): HTTP/1.1 style -
+		// the map exists from the start and is filled in when the body hits EOF;
+		// HTTP/2 style without announced trailers - Response.Trailer stays nil
+		// and a fresh map is assigned at EOF. Either way the values only exist
+		// once the body has been read to the end.
+		late := (len(body.Data)+len(body.Chunks))%2 == 1
+		if late {
+			resp.Trailer = nil
+		}
 		prev := body.OnEOF
 		body.OnEOF = func() {
 			if prev != nil {
 				prev()
+			}
+			if resp.Trailer == nil {
+				resp.Trailer = make(http.Header)
 			}
 			for k, v := range trailer {
 				ck := http.CanonicalHeaderKey(k)
